@@ -261,4 +261,16 @@ def agg_repeated(rng):
     return 'agg_repeated', prog, ['bar', 't3', 'key'], inputs
 
 
+def tc_self(rng):
+    """non-linear transitive closure over a single relation that holds its own input: under ascent_run! the only initialised relation
+    is read by the stratum that derives it and by nothing else"""
+    prog = Program([Rel('path', [T.I32, T.I32])],
+                   [Rule([Head('path', [V('x'), V('z')])], [Clause('path', [AVar('x'), AVar('y')]), Clause('path', [AVar('y'), AVar('z')])])])
+
+    def inputs(rng):
+        n = rng.choice([4, 7, 12])
+        return [('path', t) for t in _graph(rng, n, rng.randrange(n - 1, 2 * n))]
+    return 'tc_self', prog, ['path'], inputs
+
+
 ALL = [tc, sp_count, funnel_rel, funnel_lat, neg_agg_chain, lat_contention, noindex_cycle, lat_many_keys, set_reach]
